@@ -7,6 +7,7 @@ import (
 	"fmt"
 	"hash/fnv"
 	"io"
+	"math/rand/v2"
 	"os"
 	"runtime"
 	"testing"
@@ -105,231 +106,272 @@ func runC05(t *testing.T, c *choice.Stream, r *Result, opt RunOpt) {
 			}
 		}
 	}
-	// ---- fault ----
+	// ---- fault and read plan: drawn once per history ----
 	fault := []string{"none", "flip", "sizes", "cut"}[c.Weighted("fault", 3, 5, 1, 1)]
-	data := append([]byte(nil), stream...)
-	dmg := -1 // index of the damaged frame
-	flipOff, mask := -1, byte(0)
-	lengthsIntact := true
-	switch fault {
-	case "flip":
-		dmg = c.Draw("flip.frame", nf)
-		fr := frames[dmg]
-		// bias towards the header
-		if c.Bool("flip.header", 1, 3) {
-			flipOff = fr.off + c.Draw("flip.hoff", min(25, fr.end-fr.off))
-		} else {
-			flipOff = fr.off + c.Draw("flip.off", fr.end-fr.off)
-		}
-		mask = []byte{0x01, 0x80, 0xff, 0x10}[c.Draw("flip.mask", 4)]
-		data[flipOff] ^= mask
-		if o := flipOff - fr.off; o >= 17 && o < 25 {
-			lengthsIntact = false
-		}
-	case "sizes":
-		// a frame whose size fields exceed the documented limits, under a valid checksum
-		dmg = nf
-		hdr := make([]byte, 25)
-		hdr[16] = 0x82
-		which := c.Draw("sizes.which", 3)
-		raw, ds := uint32(9+16), uint32(16)
-		if which != 1 {
-			raw = uint32(c.Pick("sizes.raw", 1<<27+10, 1<<30, 0xffffffff))
-		}
-		if which != 0 {
-			ds = uint32(c.Pick("sizes.data", 1<<27+1, 1<<30, 0xffffffff))
-		}
-		binary.LittleEndian.PutUint32(hdr[17:], raw)
-		binary.LittleEndian.PutUint32(hdr[21:], ds)
-		body := make([]byte, 16)
-		h := city.CH128(append(append([]byte{}, hdr[16:]...), body...))
-		binary.LittleEndian.PutUint64(hdr[0:], h.Low)
-		binary.LittleEndian.PutUint64(hdr[8:], h.High)
-		data = append(append(data, hdr...), body...)
-	case "cut":
-		dmg = c.Draw("cut.frame", nf)
-		fr := frames[dmg]
-		data = data[:fr.off+c.Draw("cut.off", fr.end-fr.off)]
-	}
-	// ---- read plan ----
-	src := &simio.FaultyReader{Data: data, Rng: c.Sub("src.seg"), MaxSeg: c.Pick("src.maxseg", 1, 7, 64, 4096, 1<<20), End: c.Draw("src.end", 4)}
-	if c.Bool("src.whole", 1, 3) {
-		src.Rng = nil
-	}
+	dmgDraw := c.Draw("dmg.frame", nf)
+	flipHeader := c.Bool("flip.header", 1, 3)
+	flipHoff := c.Draw("flip.hoff", 25)
+	flipAny := c.Draw("flip.off", 1<<30)
+	flipMask := []byte{0x01, 0x80, 0xff, 0x10}[c.Draw("flip.mask", 4)]
+	sizesWhich := c.Draw("sizes.which", 3)
+	sizesRaw := uint32(c.Pick("sizes.raw", 1<<27+10, 1<<30, 0xffffffff))
+	sizesData := uint32(c.Pick("sizes.data", 1<<27+1, 1<<30, 0xffffffff))
+	cutDraw := c.Draw("cut.off", 1<<30)
+	segSeed := uint64(c.Draw("src.seg", 1<<31-1))
+	srcMaxSeg := c.Pick("src.maxseg", 1, 7, 64, 4096, 1<<20)
+	srcEnd := c.Draw("src.end", 4)
+	srcWhole := c.Bool("src.whole", 1, 3)
 	useProto := c.Bool("via.proto", 1, 3)
-	var rd io.Reader
-	if useProto {
-		pr := proto.NewReader(src)
-		pr.EnableCompression()
-		rd = pr
-	} else {
-		rd = compress.NewReader(src)
-	}
 	bufMax := c.Pick("buf.max", 1, 3, 16, 100, 4096, 1<<17)
+	bufSeed := uint64(c.Draw("buf.sizes", 1<<31-1))
+	extraReads := c.Range("reads.after", 1, 5)
 	if fault == "sizes" && bufMax < 4096 {
 		bufMax = 4096 // every read is bracketed by a memory-statistics snapshot in this configuration
 	}
-	bufRng := c.Sub("buf.sizes")
-	var want []byte
-	for i, f := range frames {
-		if dmg >= 0 && i >= dmg && fault != "sizes" {
-			break
-		}
-		want = append(want, f.payload...)
-	}
-	var got, gotAfter []byte
-	var firstErr error
-	errsAfter := 0
-	var ms0, ms1 runtime.MemStats
-	maxReads := len(want)/max(1, bufMax/2) + 64
-	extra := c.Range("reads.after", 1, 5)
-	buf := make([]byte, bufMax)
-	for i := 0; i < maxReads*4+1000; i++ {
-		b := buf[:1+bufRng.IntN(bufMax)]
-		if fault == "sizes" && firstErr == nil {
-			runtime.ReadMemStats(&ms0)
-		}
-		n, err := rd.Read(b)
-		if os.Getenv("VERIF_C05_DEBUG") != "" {
-			fmt.Fprintf(os.Stderr, "read(%d) = %d, %v; source served %d of %d\n", len(b), n, err, src.Served, len(data))
-		}
-		if fault == "sizes" && err != nil && firstErr == nil {
-			runtime.ReadMemStats(&ms1)
-		}
-		if n < 0 || n > len(b) {
-			r.Violate("read-contract", "read-contract", "Read returned n=%d for a buffer of %d", n, len(b))
-			return
-		}
-		if firstErr == nil {
-			got = append(got, b[:n]...)
-		} else {
-			gotAfter = append(gotAfter, b[:n]...)
-		}
-		if err != nil {
-			if firstErr == nil {
-				firstErr = err
-			} else {
-				errsAfter++
-			}
-			extra--
-			if extra < 0 {
-				break
-			}
-		} else if n == 0 {
-			// a reader may return (0, nil) but not forever
-			extra--
-			if extra < -50 {
-				break
-			}
-		}
-	}
 	h := fnv.New64a()
-	h.Write(data)
-	fmt.Fprintf(h, "|%s|%d|%d|%v|%d", fault, flipOff, bufMax, useProto, src.MaxSeg)
-	r.Digest = fmt.Sprintf("%016x", h.Sum64())
-	r.NonTriv = fault != "none" || nf > 1 || src.Reads > 1
-	r.Cell = fault
-	if fault != "none" {
-		r.Fire(fault)
-	}
-	r.Sample = map[string]any{"frames": meths, "fault": fault, "flip_offset_in_stream": flipOff, "mask": mask, "damaged_frame": dmg, "buffer_max": bufMax, "source_max_segment": src.MaxSeg, "via_proto_reader": useProto, "stream_bytes": len(data)}
+	// one evaluation: the given byte of the stream altered with the given mask (flip fault), or the drawn fault
+	eval := func(flipOff int, mask byte) {
+		data := append([]byte(nil), stream...)
+		dmg := -1 // index of the damaged frame
+		lengthsIntact := true
+		switch fault {
+		case "flip":
+			for i, f := range frames {
+				if flipOff >= f.off && flipOff < f.end {
+					dmg = i
+				}
+			}
+			fr := frames[dmg]
+			data[flipOff] ^= mask
+			if o := flipOff - fr.off; o >= 17 && o < 25 {
+				lengthsIntact = false
+			}
+		case "sizes":
+			// a frame whose size fields exceed the documented limits, under a valid checksum
+			dmg = nf
+			hdr := make([]byte, 25)
+			hdr[16] = 0x82
+			which := sizesWhich
+			raw, ds := uint32(9+16), uint32(16)
+			if which != 1 {
+				raw = sizesRaw
+			}
+			if which != 0 {
+				ds = sizesData
+			}
+			binary.LittleEndian.PutUint32(hdr[17:], raw)
+			binary.LittleEndian.PutUint32(hdr[21:], ds)
+			body := make([]byte, 16)
+			h := city.CH128(append(append([]byte{}, hdr[16:]...), body...))
+			binary.LittleEndian.PutUint64(hdr[0:], h.Low)
+			binary.LittleEndian.PutUint64(hdr[8:], h.High)
+			data = append(append(data, hdr...), body...)
+		case "cut":
+			dmg = dmgDraw
+			fr := frames[dmg]
+			data = data[:fr.off+cutDraw%(fr.end-fr.off)]
+		}
+		// ---- read plan ----
+		src := &simio.FaultyReader{Data: data, Rng: rand.New(rand.NewPCG(segSeed, 1)), MaxSeg: srcMaxSeg, End: srcEnd}
+		if srcWhole {
+			src.Rng = nil
+		}
+		var rd io.Reader
+		if useProto {
+			pr := proto.NewReader(src)
+			pr.EnableCompression()
+			rd = pr
+		} else {
+			rd = compress.NewReader(src)
+		}
+		bufRng := rand.New(rand.NewPCG(bufSeed, 2))
+		var want []byte
+		for i, f := range frames {
+			if dmg >= 0 && i >= dmg && fault != "sizes" {
+				break
+			}
+			want = append(want, f.payload...)
+		}
+		var got, gotAfter []byte
+		var firstErr error
+		errsAfter := 0
+		var ms0, ms1 runtime.MemStats
+		maxReads := len(want)/max(1, bufMax/2) + 64
+		extra := extraReads
+		buf := make([]byte, bufMax)
+		for i := 0; i < maxReads*4+1000; i++ {
+			b := buf[:1+bufRng.IntN(bufMax)]
+			if fault == "sizes" && firstErr == nil {
+				runtime.ReadMemStats(&ms0)
+			}
+			n, err := rd.Read(b)
+			if os.Getenv("VERIF_C05_DEBUG") != "" {
+				fmt.Fprintf(os.Stderr, "read(%d) = %d, %v; source served %d of %d\n", len(b), n, err, src.Served, len(data))
+			}
+			if fault == "sizes" && err != nil && firstErr == nil {
+				runtime.ReadMemStats(&ms1)
+			}
+			if n < 0 || n > len(b) {
+				r.Violate("read-contract", "read-contract", "Read returned n=%d for a buffer of %d", n, len(b))
+				return
+			}
+			if firstErr == nil {
+				got = append(got, b[:n]...)
+			} else {
+				gotAfter = append(gotAfter, b[:n]...)
+			}
+			if err != nil {
+				if firstErr == nil {
+					firstErr = err
+				} else {
+					errsAfter++
+				}
+				extra--
+				if extra < 0 {
+					break
+				}
+			} else if n == 0 {
+				// a reader may return (0, nil) but not forever
+				extra--
+				if extra < -50 {
+					break
+				}
+			}
+		}
+		h.Write(data)
+		fmt.Fprintf(h, "|%s|%d|%d|%v|%d", fault, flipOff, bufMax, useProto, src.MaxSeg)
+		r.Digest = fmt.Sprintf("%016x", h.Sum64())
+		r.NonTriv = r.NonTriv || fault != "none" || nf > 1 || src.Reads > 1
+		r.Cell = fault
+		if fault != "none" {
+			r.Fire(fault)
+		}
+		r.Sample = map[string]any{"frames": meths, "fault": fault, "flip_offset_in_stream": flipOff, "mask": mask, "damaged_frame": dmg, "buffer_max": bufMax, "source_max_segment": src.MaxSeg, "via_proto_reader": useProto, "stream_bytes": len(data)}
 
-	// ---- oracle ----
-	if !bytes.Equal(got, want) {
-		i := 0
-		for i < len(got) && i < len(want) && got[i] == want[i] {
-			i++
-		}
-		key := "payload:" + fault
-		if len(got) > len(want) && bytes.Equal(got[:len(want)], want) {
-			key = "extra-bytes:" + fault
-		}
-		r.Violate("wrong-bytes", key, "before any error the reader handed out %d bytes, the intact frames in front of the fault hold %d; first difference at %d (frames %v, fault %s at %d)", len(got), len(want), i, meths, fault, flipOff)
-		return
-	}
-	switch fault {
-	case "none":
-		if firstErr == nil || !(errors.Is(firstErr, io.EOF) || errors.Is(firstErr, io.ErrUnexpectedEOF) || errors.Is(firstErr, simio.ErrReset)) {
-			r.Violate("end-of-stream", "end-of-stream", "after the last frame the reader returned %v, want the source's end-of-stream error", firstErr)
-		}
-	case "flip":
-		if firstErr == nil {
-			r.Violate("corruption-accepted", "corruption-accepted", "byte %d of the stream (offset %d in frame %d, %s) was altered with mask %#x and no read failed", flipOff, flipOff-frames[dmg].off, dmg, meths[dmg], mask)
+		// ---- oracle ----
+		if !bytes.Equal(got, want) {
+			i := 0
+			for i < len(got) && i < len(want) && got[i] == want[i] {
+				i++
+			}
+			key := "payload:" + fault
+			if len(got) > len(want) && bytes.Equal(got[:len(want)], want) {
+				key = "extra-bytes:" + fault
+			}
+			r.Violate("wrong-bytes", key, "before any error the reader handed out %d bytes, the intact frames in front of the fault hold %d; first difference at %d (frames %v, fault %s at %d)", len(got), len(want), i, meths, fault, flipOff)
 			return
 		}
-		if lengthsIntact {
-			var ce *compress.CorruptedDataErr
-			if !errors.As(firstErr, &ce) {
-				r.Violate("not-a-corruption-error", "not-a-corruption-error", "frame %d altered at offset %d (length fields intact) but the error carries no CorruptedDataErr: %v", dmg, flipOff-frames[dmg].off, firstErr)
+		switch fault {
+		case "none":
+			if firstErr == nil || !(errors.Is(firstErr, io.EOF) || errors.Is(firstErr, io.ErrUnexpectedEOF) || errors.Is(firstErr, simio.ErrReset)) {
+				r.Violate("end-of-stream", "end-of-stream", "after the last frame the reader returned %v, want the source's end-of-stream error", firstErr)
+			}
+		case "flip":
+			if firstErr == nil {
+				r.Violate("corruption-accepted", "corruption-accepted", "byte %d of the stream (offset %d in frame %d, %s) was altered with mask %#x and no read failed", flipOff, flipOff-frames[dmg].off, dmg, meths[dmg], mask)
 				return
 			}
-			fr := data[frames[dmg].off:frames[dmg].end]
-			stored := city.U128{Low: binary.LittleEndian.Uint64(fr[0:]), High: binary.LittleEndian.Uint64(fr[8:])}
-			actual := city.CH128(fr[16:])
-			if ce.Reference != stored || ce.Actual != actual {
-				r.Violate("wrong-checksums", "wrong-checksums", "CorruptedDataErr carries reference %x/actual %x, the frame stores %x and hashes to %x", ce.Reference, ce.Actual, stored, actual)
+			if lengthsIntact {
+				var ce *compress.CorruptedDataErr
+				if !errors.As(firstErr, &ce) {
+					r.Violate("not-a-corruption-error", "not-a-corruption-error", "frame %d altered at offset %d (length fields intact) but the error carries no CorruptedDataErr: %v", dmg, flipOff-frames[dmg].off, firstErr)
+					return
+				}
+				fr := data[frames[dmg].off:frames[dmg].end]
+				stored := city.U128{Low: binary.LittleEndian.Uint64(fr[0:]), High: binary.LittleEndian.Uint64(fr[8:])}
+				actual := city.CH128(fr[16:])
+				if ce.Reference != stored || ce.Actual != actual {
+					r.Violate("wrong-checksums", "wrong-checksums", "CorruptedDataErr carries reference %x/actual %x, the frame stores %x and hashes to %x", ce.Reference, ce.Actual, stored, actual)
+					return
+				}
+			}
+		case "sizes":
+			if firstErr == nil {
+				r.Violate("limits-not-enforced", "limits-not-enforced", "a frame with size fields beyond the limits was accepted")
+				return
+			}
+			if grew := ms1.TotalAlloc - ms0.TotalAlloc; grew > 1<<20 {
+				r.Violate("allocated-before-rejecting", "allocated-before-rejecting", "rejecting out-of-limit size fields allocated %d bytes", grew)
+				return
+			}
+		case "cut":
+			if firstErr == nil {
+				r.Violate("truncation-accepted", "truncation-accepted", "the stream was cut inside frame %d and no read failed", dmg)
 				return
 			}
 		}
-	case "sizes":
-		if firstErr == nil {
-			r.Violate("limits-not-enforced", "limits-not-enforced", "a frame with size fields beyond the limits was accepted")
-			return
-		}
-		if grew := ms1.TotalAlloc - ms0.TotalAlloc; grew > 1<<20 {
-			r.Violate("allocated-before-rejecting", "allocated-before-rejecting", "rejecting out-of-limit size fields allocated %d bytes", grew)
-			return
-		}
-	case "cut":
-		if firstErr == nil {
-			r.Violate("truncation-accepted", "truncation-accepted", "the stream was cut inside frame %d and no read failed", dmg)
-			return
-		}
-	}
-	// reads that follow a failure may only hand out bytes of frames that verify
-	if len(gotAfter) > 0 {
-		// With damaged length fields the reader's position is arbitrary: it may
-		// skip intact frames and happen to land on a later frame boundary. What
-		// it hands out must still be whole payloads of intact frames behind the
-		// fault, in stream order (the last one possibly partial).
-		pos := 0
-		if fault == "flip" {
-			// payloads may share prefixes, so try every subsequence of the frames behind the fault
-			cand := frames[dmg+1:]
-			var match func(p, fi int) bool
-			match = func(p, fi int) bool {
-				if p > pos {
-					pos = p
-				}
-				rest := gotAfter[p:]
-				if len(rest) == 0 {
-					return true
-				}
-				for i := fi; i < len(cand); i++ {
-					pl := cand[i].payload
-					if len(rest) >= len(pl) {
-						if len(pl) > 0 && bytes.Equal(rest[:len(pl)], pl) && match(p+len(pl), i+1) {
-							return true
-						}
-					} else if bytes.Equal(rest, pl[:len(rest)]) {
-						pos = len(gotAfter)
+		// reads that follow a failure may only hand out bytes of frames that verify
+		if len(gotAfter) > 0 {
+			// With damaged length fields the reader's position is arbitrary: it may
+			// skip intact frames and happen to land on a later frame boundary. What
+			// it hands out must still be whole payloads of intact frames behind the
+			// fault, in stream order (the last one possibly partial).
+			pos := 0
+			if fault == "flip" {
+				// payloads may share prefixes, so try every subsequence of the frames behind the fault
+				cand := frames[dmg+1:]
+				var match func(p, fi int) bool
+				match = func(p, fi int) bool {
+					if p > pos {
+						pos = p
+					}
+					rest := gotAfter[p:]
+					if len(rest) == 0 {
 						return true
 					}
+					for i := fi; i < len(cand); i++ {
+						pl := cand[i].payload
+						if len(rest) >= len(pl) {
+							if len(pl) > 0 && bytes.Equal(rest[:len(pl)], pl) && match(p+len(pl), i+1) {
+								return true
+							}
+						} else if bytes.Equal(rest, pl[:len(rest)]) {
+							pos = len(gotAfter)
+							return true
+						}
+					}
+					return false
 				}
-				return false
+				if match(0, 0) {
+					pos = len(gotAfter)
+				}
 			}
-			if match(0, 0) {
-				pos = len(gotAfter)
+			if pos != len(gotAfter) {
+				zero := true
+				for _, b := range gotAfter {
+					if b != 0 {
+						zero = false
+					}
+				}
+				r.Violate("bytes-after-failure", fmt.Sprintf("after-failure:%s:zero=%v", fault, zero), "after the first error (%v) further reads handed out %d bytes of which only the first %d are payloads of intact frames behind the fault (all zero: %v); frames %v, fault %s at stream offset %d, %d errors after the first", firstErr, len(gotAfter), pos, zero, meths, fault, flipOff, errsAfter)
 			}
 		}
-		if pos != len(gotAfter) {
-			zero := true
-			for _, b := range gotAfter {
-				if b != 0 {
-					zero = false
-				}
+	}
+	if fault != "flip" {
+		eval(-1, 0)
+		return
+	}
+	// the drawn alteration
+	fr := frames[dmgDraw]
+	off := fr.off + flipAny%(fr.end-fr.off)
+	if flipHeader {
+		off = fr.off + flipHoff%min(25, fr.end-fr.off)
+	}
+	eval(off, flipMask)
+	// every offset of the damaged frame x three masks, for small frames
+	limit := 512
+	if opt.Tier != "thorough" && (fr.end-fr.off > 64 || r.Index%4 != 0) {
+		limit = 0 // quick tier: a quarter of the small-frame cases get the full enumeration
+	}
+	if fr.end-fr.off <= limit && r.Outcome != "violation" {
+		n := 1
+		for o := fr.off; o < fr.end && r.Outcome != "violation"; o++ {
+			for _, m := range []byte{0x01, 0x80, 0xff} {
+				eval(o, m)
+				n++
 			}
-			r.Violate("bytes-after-failure", fmt.Sprintf("after-failure:%s:zero=%v", fault, zero), "after the first error (%v) further reads handed out %d bytes of which only the first %d are payloads of intact frames behind the fault (all zero: %v); frames %v, fault %s at stream offset %d, %d errors after the first", firstErr, len(gotAfter), pos, zero, meths, fault, flipOff, errsAfter)
 		}
+		r.Evals = n
+		r.Probe("every_offset_of_a_frame")
 	}
 }
